@@ -2,10 +2,14 @@
    C10_unchanged: no match (MatchNotFoundError or the default), a last step that is not a key or index (PopError)
    or any other failure: the document is unchanged.  C10_success_frame: on success the last step is a key or an
    index, the removal happens in the container of the match's parent and nothing outside that container changes.
-   C10_later_items_move_down / C10_earlier_items_stay / C10_other_keys: inside it exactly that entry goes. *)
+   C10_later_items_move_down / C10_earlier_items_stay / C10_other_keys: inside it exactly that entry goes.
+   C10_pop_removes_at_position: on a path of keys and indices (unique keys and identity labels) a successful
+   pop_match is positional: the parent path resolves to a node y, the last step names the member the returned
+   match holds, and the new document is the old one with y replaced by y without that member (`remove`:
+   del d[k] / del l[i]) at that position; nothing else changes. *)
 From Coq Require Import List ZArith String Bool PArith.
-From TP Require Import Json PyPrim Machine Api Mutate.
-From TP.proofs Require Import MutateProofs.
+From TP Require Import Json PyPrim Machine Api Mutate SpecSet.
+From TP.proofs Require Import MutateProofs BelowLemmas AssignPosition.
 Import ListNotations.
 
 Theorem C10_unchanged : forall B H depth src doc p must tr r doc' es,
@@ -35,3 +39,12 @@ Theorem C10_other_keys : forall (A : Type) (l : list (string * A)) k k',
     k' <> k -> assoc k' (dict_remove l k) = assoc k' l.
 Proof. exact @dict_remove_other. Qed.
 Print Assumptions C10_other_keys.
+
+Theorem C10_pop_removes_at_position :
+  forall (B H : positive) (depth : nat) d0 doc (p : list (vertex hp)) must tr (m : @tm json) doc' es,
+    kipath p = true -> uniq doc -> NoDup (labels doc) ->
+    pop_match B H depth (SrcDoc d0) doc p must tr = (Ok (Some m), doc', es) ->
+    exists pp v y y', p = pp ++ [v] /\ lookup doc pp = Some y /\ child_at v y = Some (tdata m) /\
+                      remove v y = Some y' /\ doc' = put_at doc pp y'.
+Proof. exact pop_match_position. Qed.
+Print Assumptions C10_pop_removes_at_position.
